@@ -165,6 +165,8 @@ fn c08_leaves() -> Vec<(String, Value)> {
     v.push(("integer:naz-false".into(), json!({"type": "integer", "x-null-as-zero": false})));
     v.push(("integer:xdate".into(), json!({"type": "integer", "x-format": "date"})));
     v.push(("integer:xother".into(), json!({"type": "integer", "x-format": "time"})));
+    v.push(("integer:naz+xdate".into(), json!({"type": "integer", "x-null-as-zero": true, "x-format": "date"})));
+    v.push(("integer:naz-false+xdate".into(), json!({"type": "integer", "x-null-as-zero": false, "x-format": "date"})));
     v.push(("number".into(), json!({"type": "number"})));
     v.push(("number:float".into(), json!({"type": "number", "format": "float"})));
     v.push(("boolean".into(), json!({"type": "boolean"})));
